@@ -20,7 +20,8 @@ V == INSTANCE Version WITH CacheVersions <- {}, cacheN <- 0, cacheG <- 0, last <
 
 Kinds  == {"plain", "na", "list", "dict", "grid", "xstr"}
 Only3  == {"na", "list", "dict", "grid", "xstr"}
-RowPaths  == {"append", "insert", "extend", "iadd", "setitem"}
+RowPaths  == {"append", "insert", "extend", "iadd", "setitem",
+              "extend_tuple", "extend_iter", "extend_grid", "iadd_grid"}   \* the other argument forms of extend / +=
 MetaPaths == {"meta_set", "meta_append", "meta_extend", "colmeta_set", "colmeta_append", "col_assign", "col_add_item",
               "meta_overwrite", "colmeta_overwrite", "meta_update", "col_reassign"}   \* overwriting an existing tag / column
 CtorPaths == {"ctor_meta", "ctor_colmeta"}
